@@ -6,6 +6,7 @@ From Coq Require Import String List Bool Arith ZArith.
 Require Import OV.Graph.Syntax OV.Graph.Sem OV.Graph.Wf.
 Require Import OV.Builder.Strings OV.Builder.Modules OV.Builder.ModulesProofs.
 Require Import OV.Builder.Naming OV.Builder.NamingProofs OV.Builder.Trace OV.Builder.TraceProofs.
+Require Import OV.Builder.TraceCF OV.Builder.TraceCFProofs.
 Import ListNotations.
 Local Open Scope string_scope.
 
@@ -159,8 +160,8 @@ Print Assumptions C18_names_unique_across_subgraphs_refuted.
    with the shared graph evaluator = reading the trace directly, including failure.
    Hypotheses: value ids exist when used; value and initializer names pairwise distinct (for default
    names: C18_names_unique_one_graph); literals that share a cache key denote the same tensor (C12).
-   Not covered by this theorem: subgraph bodies (If/Loop/Scan), operands that need a CastLike node,
-   call_inline (tie: correspondence + onnxruntime-vs-NumPy oracle only). *)
+   Not covered by this theorem: subgraph bodies and operands that need a CastLike node (see
+   C18_build_computes_trace_cf_partial below), call_inline (Props/C18_inline.v). *)
 Theorem C18_build_computes_trace :
   forall V sem truth trip of_nat of_bool lim lit_val cf fuel ins tr outs args,
     straight tr = true ->
@@ -182,3 +183,55 @@ Example C18_build_computes_trace_hypotheses_satisfiable :
              (build cf ["x"; "y"] ex_trace [6; 5]) [a; b] =
   replay V sem lit_val ex_trace [a; b] [6; 5].
 Proof. exact ex_trace_computes. Qed.
+
+(* --- control flow and promoted constants.  For every trace of operator calls, function calls, If and Loop
+   calls whose bodies were built through builder.subgraph (nested builder scopes to any depth, bodies capturing
+   values of the enclosing trace functions, declared output names), with literal operands at every level --
+   promoted constants through the constant cache of the root builder (initializers of the root graph, visible in
+   every body), and CastLike(constant, like-value) next to a value of unknown dtype --: whenever the direct
+   reading of the trace (`creplay`: only the taken branch is read, the Loop body is iterated) is defined,
+   evaluating the built graph with the shared evaluator gives exactly that result.
+   Hypotheses: the names the build defines (values, CastLike outputs, initializers) are pairwise distinct (after
+   the repo's fix 3390211 the generated ones are; explicit names are the caller's); literals that share a cache
+   key denote the same tensor (C12).
+   Not covered: the converse direction for traces with bodies (reading undefined => evaluation fails:
+   build_computes_trace_cf_full; proved for straight-line traces above), Scan and other operators with
+   graph-valued attributes (the shared evaluator does not interpret them), Loop scan outputs. *)
+Theorem C18_build_computes_trace_cf_partial :
+  forall V sem truth trip of_nat of_bool lim lit_val cf fuel ins tr outs args r,
+  cf_trace tr = true ->
+  let sf := fst (build_state cf ins tr) in
+  NoDup (all_defined sf) ->
+  Forall (lit_ok V lit_val (b_cache sf)) (lits_calls tr) ->
+  List.length args = List.length ins ->
+  creplay V sem truth trip of_nat of_bool lim lit_val fuel tr args outs = Some r ->
+  eval_graph V sem truth trip of_nat of_bool lim (S fuel) (init_env V lit_val (b_cache sf)) (build cf ins tr outs) args = Some r.
+Proof. exact build_computes_trace_cf_partial. Qed.
+Print Assumptions C18_build_computes_trace_cf_partial.
+
+(* the same with the hypotheses as the boolean the harness evaluates on every generated trace *)
+Theorem C18_build_computes_trace_cf_checked :
+  forall V sem truth trip of_nat of_bool lim lit_val cf fuel ins tr outs args r,
+  cf_hypsb cf ins tr = true ->
+  List.length args = List.length ins ->
+  creplay V sem truth trip of_nat of_bool lim lit_val fuel tr args outs = Some r ->
+  eval_graph V sem truth trip of_nat of_bool lim (S fuel)
+             (init_env V lit_val (b_cache (fst (build_state cf ins tr)))) (build cf ins tr outs) args = Some r.
+Proof. exact build_computes_trace_cf_checked. Qed.
+Print Assumptions C18_build_computes_trace_cf_checked.
+
+(* non-vacuity: an If whose branches capture an outer value (one with a declared output name), a Loop with a
+   literal trip count, an omitted condition, a carried tensor and a carried literal whose body captures a graph
+   input, a CastLike operand; the reading is defined for both branches and undefined without fuel *)
+Example C18_build_computes_trace_cf_hypotheses_satisfiable :
+  cf_hypsb bcfg_fixed ["x"; "c"] ex_cf_trace = true /\
+  creplay Z zsem ztruth ztrip Z.of_nat zof_bool 100 zlit 1 ex_cf_trace [5; 1]%Z [15; 14; 5] = Some [290; 3; 14]%Z /\
+  creplay Z zsem ztruth ztrip Z.of_nat zof_bool 100 zlit 1 ex_cf_trace [5; 0]%Z [15; 14; 5] = Some [80; 3; -7]%Z /\
+  creplay Z zsem ztruth ztrip Z.of_nat zof_bool 100 zlit 0 ex_cf_trace [5; 1]%Z [15; 14; 5] = None.
+Proof. exact ex_cf_hyps. Qed.
+
+Example C18_build_computes_trace_cf_instance :
+  eval_graph Z zsem ztruth ztrip Z.of_nat zof_bool 100 2
+             (init_env Z zlit (b_cache (fst (build_state bcfg_fixed ["x"; "c"] ex_cf_trace))))
+             (build bcfg_fixed ["x"; "c"] ex_cf_trace [15; 14; 5]) [5; 1]%Z = Some [290; 3; 14]%Z.
+Proof. exact ex_cf_computes. Qed.
